@@ -165,6 +165,8 @@ Record InvA (cf : config) (s : state) : Prop := {
   a_tokens : length (running s) + returning s + idle s = active s /\ active s <= maxw cf;
   a_queue : 0 < length (queue s) ->
             ntok s = true \/ p_loop (p_pc s) = true \/ p_do (p_pc s) = true \/ q_notify (q_pc s) = true;
+  a_stret : stpc_eqb (st_pc s) StRet = true -> q_stopping (q_pc s) = true \/ q_exit (q_pc s) = true;
+  a_finalp : p_final s = true -> p_sel (p_pc s) = false;
   a_caller : forall c, ACaller cf (stopped s) c (callers s c) }.
 
 Lemma invA_init cf : InvA cf init.
@@ -261,20 +263,22 @@ Ltac open_label HC :=
 
 Lemma invA_step cf s l s' : InvA cf s -> step cf s l = Some s' -> InvA cf s'.
 Proof.
-  intros [Hst Hcs Hqc Hqe Hfi Hpe Hic Htk Hqu HC] H.
+  intros [Hst Hcs Hqc Hqe Hfi Hpe Hic Htk Hqu Hsr Hfp HC] H.
   destruct l; open_label HC;
   try (match goal with H : take_nth _ _ = Some _ |- _ => pose proof (take_nth_len _ _ _ _ H) end);
   (constructor; simpl;
-   [ clear Hcs Hqc Hqe Hfi Hpe Hic Htk Hqu HC; fin
-   | clear Hst Hqc Hqe Hfi Hpe Hic Htk Hqu HC; fin
-   | clear Hcs Hqe Hfi Hpe Hic Htk Hqu HC; fin
-   | clear Hst Hcs Hqc Hfi Hpe Hic Htk Hqu HC; fin
-   | clear Hst Hcs Hqc Hqe Hpe Hic Htk Hqu HC; fin
-   | clear Hst Hcs Hqc Hqe Hic Htk Hqu HC; fin
-   | clear Hst Hcs Hqc Hqe Hfi Hpe Htk Hqu HC; fin
-   | clear Hst Hcs Hqc Hqe Hfi Hpe Hic Hqu HC; fin
-   | clear Hst Hcs Hqc Hqe Hfi Hpe Hic Htk HC; fin
-   | clear Hcs Hqe Hfi Hpe Hic Htk Hqu; caller_goal HC ]).
+   [ clear Hcs Hqc Hqe Hfi Hpe Hic Htk Hqu HC Hsr Hfp; fin
+   | clear Hst Hqc Hqe Hfi Hpe Hic Htk Hqu HC Hsr Hfp; fin
+   | clear Hcs Hqe Hfi Hpe Hic Htk Hqu HC Hsr Hfp; fin
+   | clear Hst Hcs Hqc Hfi Hpe Hic Htk Hqu HC Hsr Hfp; fin
+   | clear Hst Hcs Hqc Hqe Hpe Hic Htk Hqu HC Hsr Hfp; fin
+   | clear Hst Hcs Hqc Hqe Hic Htk Hqu HC Hsr Hfp; fin
+   | clear Hst Hcs Hqc Hqe Hfi Hpe Htk Hqu HC Hsr Hfp; fin
+   | clear Hst Hcs Hqc Hqe Hfi Hpe Hic Hqu HC Hsr Hfp; fin
+   | clear Hst Hcs Hqc Hqe Hfi Hpe Hic Htk HC Hsr Hfp; fin
+   | clear Hst Hcs Hqc Hqe Hfi Hpe Hic Htk Hqu HC Hfp; fin
+   | clear Hst Hcs Hqc Hqe Hpe Hic Htk Hqu HC Hsr; fin
+   | clear Hcs Hqe Hfi Hpe Hic Htk Hqu Hsr Hfp; caller_goal HC ]).
 Qed.
 
 Lemma invA_reachable cf s : reachable cf s -> InvA cf s.
